@@ -54,6 +54,48 @@ TRIAGE = {
     ("logqlengine/jsonexpr/jsonexpr.go", 82): "error path of a malformed JSON path: another branch rejects it as well", ("logqlengine/jsonexpr/jsonexpr.go", 91): "error path of a malformed JSON path",
     ("logqlengine/jsonexpr/jsonexpr.go", 156): EQ,
 }
+EXTRA = {
+    ("cmd/docker-logql/color.go", 25): "outside the properties: the bold variants of the palette are not used for container names",
+    ("cmd/docker-logql/params.go", 112): EQ + ": strconv treats an unknown bit size as 64",
+    ("cmd/docker-logql/params.go", 154): EQ + ": strconv treats an unknown bit size as 64",
+    ("cmd/docker-logql/params.go", 122): "not reachable in the quantified domain: an 11-digit count of seconds is the year 5138",
+    ("cmd/docker-logql/query.go", 90): "outside the properties: the --limit flag (C16 covers --start --end --since --step)",
+    ("cmd/docker-logql/query.go", 102): "outside the properties: registration / default of a flag",
+    ("cmd/docker-logql/query.go", 103): "outside the properties: registration / default of a flag",
+    ("cmd/docker-logql/query.go", 165): "outside the properties: the colour of the timestamp column (C15 speaks of the container name)",
+    ("cmd/docker-logql/query.go", 169): "outside the properties: the colour of the timestamp column",
+    ("lexerql/duration.go", 15): "dead code: ScanDuration has no caller", ("lexerql/duration.go", 22): "dead code: ScanDuration has no caller", ("lexerql/duration.go", 23): "dead code: ScanDuration has no caller",
+    ("logqlengine/aggregated_labels.go", 93): EQ + ": a longer scratch buffer",
+    ("logqlengine/engine.go", 49): "outside the properties: the look-back of an instant log query",
+    ("logqlengine/engine.go", 97): EQ + ": tracing only", ("logqlengine/engine.go", 108): EQ + ": tracing only",
+    ("logqlengine/eval_streams.go", 80): "outside the properties: the look-back of an instant log query",
+    ("logqlengine/jsonexpr/eval.go", 19): EQ + ": capacity hint", ("logqlengine/jsonexpr/jsonexpr.go", 154): EQ,
+    ("logqlengine/label_set.go", 67): EQ + ": the stream key loses a separator, quoted values keep keys distinct",
+    ("logqlengine/label_set.go", 70): EQ + ": the stream key loses a separator, quoted values keep keys distinct",
+    ("logqlengine/label_set.go", 83): "outside this product: trace / span / severity fields are never set by dockerlog",
+    ("logqlengine/label_set.go", 86): "outside this product: trace / span / severity fields are never set by dockerlog",
+    ("logqlengine/label_set.go", 89): "outside this product: trace / span / severity fields are never set by dockerlog",
+    ("logqlengine/label_set.go", 105): EQ + " in this product: dockerlog sanitises Docker label keys before they become attributes",
+    ("logqlengine/label_set.go", 152): EQ + ": strconv treats an unknown bit size as 64",
+    ("logqlengine/line_filter.go", 78): EQ, ("logqlengine/line_filter.go", 99): "the bare unspecified address \"::\" as a whole candidate; left as is",
+    ("logqlmetric/bin_op.go", 243): EQ + ": no sample is ever filtered out by the generated operators",
+    ("logqlmetric/range_agg.go", 47): EQ + ": instant queries do not use the step",
+    ("logqlengine/sampler.go", 62): EQ + ": the range aggregation applies the same grouping again",
+    ("logqlengine/sampler.go", 65): EQ + ": the range aggregation applies the same grouping again",
+    ("logqlengine/sampler.go", 33): EQ + ": error path of a constructor that does not fail for built queries",
+    ("logqlengine/template.go", 86): "not modelled: toDateInZone",
+    ("logqlengine/template.go", 99): "now modelled (all unixToTime digit lengths) - to be re-run", ("logqlengine/template.go", 100): "now modelled - to be re-run",
+    ("logqlengine/template.go", 103): "now modelled - to be re-run", ("logqlengine/template.go", 105): "now modelled - to be re-run", ("logqlengine/template.go", 107): "now modelled - to be re-run",
+    ("logql/metric_expr.go", 15): EQ + ": marker method", ("logql/pipeline.go", 10): EQ + ": marker method", ("logql/pipeline.go", 90): EQ + ": marker method",
+    ("logql/op.go", 34): EQ, ("logql/op.go", 59): EQ + ": ^ stays the tightest level",
+    ("logql/parser.go", 127): EQ + ": strconv treats an unknown bit size as 64",
+    ("logql/parser_metric_expr.go", 324): EQ + ": the sign is initialised to 1",
+    ("otelstorage/attrs.go", 62): "dead code: CopyTo has no caller",
+}
+for ln in range(60, 240):
+    EXTRA.setdefault(("logqlmetric/stream_aggregator.go", ln), EQ + ": Reset is never observed, an aggregator is built per group and step")
+for ln in (123, 125, 146, 149, 166, 167):
+    EXTRA[("logqlengine/aggregated_labels.go", ln)] = "dead code: label_replace is never evaluated"
 for ln in range(112, 171):
     TRIAGE.setdefault(("logqlengine/aggregated_labels.go", ln), "dead code: label_replace is parsed but the builder rejects it, Replace is never called")
 for ln in (126, 132, 137, 143, 153, 172, 190, 193):
@@ -64,6 +106,7 @@ def load(name):
     return [json.loads(l) for l in open(p)] if os.path.exists(p) else []
 
 sweep = load("sweep.jsonl")
+extra = load("sweep-extra.jsonl")
 re1 = {r["id"]: r for r in load("recheck.jsonl")}
 re2 = {r["id"]: r for r in load("recheck2.jsonl")}
 c = collections.Counter(r["status"] for r in sweep)
@@ -94,6 +137,23 @@ for r in sorted(left, key=lambda r: (r["file"], r["line"])):
             why = reason
     if r["status"] == "inconclusive":
         why = "the mutant loops forever: the check ends by time-out (exit 2, inconclusive), never as a violation"
+    if why is None:
+        why = "NOT TRIAGED"; unk += 1
+    out.append(f"| `{r['file']}:{r['line']}` | {r['op']}: `{r['old'][:70].replace('|', chr(92)+'|')}` | {why} |")
+ce = collections.Counter(r["status"] for r in extra)
+out += ["", "## Second family: deleted statements and integer constants", "",
+        f"* mutants generated: {len(extra)} ({ce['no-build']} do not build, {ce['killed-by-suite']} are killed by the repository's own tests)",
+        f"* caught by the quick checks of the anchored properties: {ce['caught']}; left: {ce['survived'] + ce['inconclusive']}", "",
+        "| Mutant | Edit | Why it is left |", "|---|---|---|"]
+for r in sorted(extra, key=lambda r: (r["file"], r["line"])):
+    if r["status"] not in ("survived", "inconclusive"):
+        continue
+    why = None
+    for (suf, ln), reason in EXTRA.items():
+        if r["file"].endswith(suf) and r["line"] == ln:
+            why = reason
+    if r["status"] == "inconclusive":
+        why = "the mutant loops forever or exhausts the time budget: inconclusive by time-out, never a violation"
     if why is None:
         why = "NOT TRIAGED"; unk += 1
     out.append(f"| `{r['file']}:{r['line']}` | {r['op']}: `{r['old'][:70].replace('|', chr(92)+'|')}` | {why} |")
